@@ -133,6 +133,8 @@ pub fn rust_scalar_type(scalar: &naga::Scalar) -> TokenStream {
         (naga::ScalarKind::Uint, 2) => quote!(u16),
         (naga::ScalarKind::Sint, 4) => quote!(i32),
         (naga::ScalarKind::Uint, 4) => quote!(u32),
+        (naga::ScalarKind::Sint, 8) => quote!(i64),
+        (naga::ScalarKind::Uint, 8) => quote!(u64),
         (naga::ScalarKind::Float, 4) => quote!(f32),
         (naga::ScalarKind::Float, 8) => quote!(f64),
         // TODO: Do booleans have a width?
